@@ -6,7 +6,9 @@ Exit 1: a line `VIOLATION property=<id> replay=<path>` was printed.
 """
 from __future__ import annotations
 import argparse
+import contextlib
 import importlib
+import io
 import json
 import os
 import random
@@ -112,6 +114,27 @@ def main() -> int:
         if still:
             known_keys.add(f["key"])
             print(f"KNOWN-FINDING: property={prop} {f['what']}")
+    # fixed findings suppress nothing: their witnesses are a regression corpus, replayed on every run;
+    # one that fails again is an ordinary violation
+    n_fixed = n_fixed_err = 0
+    witness_keys = {w.get("key") for w in witnesses}
+    for f in kf:
+        if f.get("status") != "fixed" or not f.get("witness"):
+            continue
+        n_fixed += 1
+        try:
+            with contextlib.redirect_stdout(io.StringIO()):
+                again = mod.replay(ctx, f["witness"])
+        except Exception:
+            n_fixed_err += 1
+            ctx.notes.append(f"replay of fixed finding {f['key']} raised: " + traceback.format_exc()[-300:])
+            continue
+        if again and f["key"] not in witness_keys:
+            w = dict(f["witness"]) if isinstance(f["witness"], dict) else {"witness": f["witness"]}
+            w["key"] = f["key"]
+            w["what"] = "REGRESSION of a repaired defect: " + f["what"]
+            witnesses.append(w)
+            witness_keys.add(f["key"])
     new_w = [w for w in witnesses if w.get("key") not in known_keys]
 
     rc = 0
@@ -169,7 +192,8 @@ def main() -> int:
             "correspondences": [{k: v for k, v in r.items() if k not in ("failing_cases", "samples")}
                                 for r in corr_reports],
             "witness_search": {"ran": bool(broken or ctx.thorough or getattr(mod, "ALWAYS_SEARCH", False)),
-                               "witnesses": len(witnesses), "known": sorted(known_keys)},
+                               "witnesses": len(witnesses), "known": sorted(known_keys),
+                               "fixed_findings_replayed": n_fixed, "fixed_replay_errors": n_fixed_err},
             "notes": ctx.notes,
         },
         "assumptions": list(getattr(mod, "ASSUMPTIONS", [])),
